@@ -159,8 +159,11 @@ impl ZoneSurfFilter {
         let mut map: HashMap<(String, String), Vec<(u32, Vec<Vec<u8>>)>> = HashMap::new();
 
         for zp in zone_plans {
-            let mut dynamic_keys: Vec<String> = Vec::new();
-            if let Some(event) = zp.events.get(0) {
+            // Collect the field set from every event of the zone: an optional field may be
+            // absent from the first event and present in later ones.
+            let mut dynamic_keys: std::collections::BTreeSet<String> =
+                std::collections::BTreeSet::new();
+            for event in &zp.events {
                 dynamic_keys.extend(event.payload.keys().cloned());
             }
             for key in dynamic_keys {
